@@ -81,6 +81,8 @@ def val(v) -> str:
 
 
 def mod(m) -> dict:
+    if not hasattr(m, "val"):      # a foreign object inside a modification list (projected, so that TLC can see it)
+        return {"v": "s:<" + type(m).__name__ + ":" + str(m)[:40] + ">", "m": 1}
     return {"v": val(m.val), "m": m.mult}
 
 
@@ -99,6 +101,9 @@ def ann(a) -> dict:
     ivs = []
     if a.intervals:
         for iv in a.intervals:
+            if not hasattr(iv, "start"):
+                ivs.append({"s": -1, "e": -1, "amb": False, "mods": [mod(iv)]})
+                continue
             ivs.append({"s": iv.start, "e": -1 if iv.end is None else iv.end, "amb": bool(iv.ambiguous),
                         "mods": mods(iv.mods)})
     return {"seq": list(a.sequence), "labile": mods(a.labile_mods), "static": mods(a.static_mods),
